@@ -371,7 +371,7 @@ Proof.
 Qed.
 
 (* 2. finite values solve the transient system; their successors are finite too *)
-Theorem eval_undisc_finite_partial s :
+Theorem eval_undisc_finite s :
   (s < n)%nat -> ~ reaches_negative_class m pi s ->
   exists v, eV o s = Fin v /\
     Rabs (v - (rpi m pi s + sumf n (fun z => Pt m pi A s z * Vf z))) <= tolV t /\
@@ -498,11 +498,10 @@ Qed.
 End UndiscChecker.
 
 (* ------------------------------------------------------------------ *)
-(* D. the k-step expected total reward (gamma = 1, rewards <= 0)         *)
-(*    partial result: it decreases in k and, off the -inf set, stays     *)
-(*    above any non-positive exact solution of the transient system,     *)
-(*    hence has a finite limit there.  (Missing: the limit EQUALS that   *)
-(*    solution, and divergence to -inf on the -inf set.)                  *)
+(* D. the k-step expected total reward (gamma = 1, rewards <= 0):        *)
+(*    it decreases in k and, off the -inf set, stays above any           *)
+(*    non-positive exact solution of the transient system (lemma used by *)
+(*    theory/PolicyEvalLimit.v, which proves convergence and divergence) *)
 (* ------------------------------------------------------------------ *)
 Section KStep.
 Variable m : mdp R.
@@ -557,7 +556,7 @@ Proof.
     + destruct (IHk s Hs). lra.
 Qed.
 
-Theorem undisc_kstep_lower_partial (V : nat -> R) :
+Theorem undisc_kstep_lower (V : nat -> R) :
   (forall s, (s < n)%nat -> neginf m pi A s = false -> V s <= 0) ->
   (forall s, (s < n)%nat -> neginf m pi A s = false ->
      V s = rpi s + sumf n (fun z => Pt m pi A s z * V z)) ->
